@@ -29,7 +29,7 @@ ASSUMPTIONS = [
 ]
 EXHAUSTIVE = {"quick": "all 54 240 strings of length <= 4 over the alphabet", "thorough": "all 813 615 strings of length <= 5 over the alphabet"}
 REQUIRED = ["values_checked", "class_literal_int", "class_literal_float", "class_nonliteral", "class_grey", "api_uwi_values_checked",
-            "curve_values_checked", "section_Well", "section_Parameter", "section_Version", "section_custom", "steering_item_values_checked"]
+            "curve_values_checked", "section_Well", "section_Parameter", "section_Version", "section_custom", "steering_item_values_checked", "files_with_values_equal_to_their_null"]
 SOFT_DEADLINE = {"quick": 90, "thorough": 1500}
 LEVEL_TEXT = ("Exhaustive enumeration of the short-string space against an independent literal recogniser, observed at the API of "
               "lasio.read; longer strings are sampled.")
@@ -159,6 +159,21 @@ def grid(tier):
     yield {"strings": [s for s in LONG if not s.isascii()], "section": "Well", "mn": "neutral", "probe": True}
     for mn, val in STEERING_VALUES:
         yield {"steering": [mn, val]}
+    # header values numerically equal (or close) to the file's own NULL, for several NULLs: a value is a literal like any other
+    for null, spellings in NULL_EQUAL.items():
+        for sec in SECTION_KINDS:
+            for mn in ("neutral", "API"):
+                yield {"strings": spellings, "section": sec, "mn": mn, "null": null}
+
+
+NULL_EQUAL = {
+    "-999.25": ["-999.25", "-999.2500", "-999,25", "-99925e-2", "-9.9925E2", "-999.26", "-999.24", "999.25", "-999.25x"],
+    "-9999": ["-9999", "-9999.0", "-9999,00", "-9.999e3", "-9998", "-99990e-1", "9999"],
+    "0": ["0", "0.0", "-0.0", "-0", "0,0", "0e5", "00", "1e-30"],
+    "999.25": ["999.25", "+999.25", "999.250", "9.9925e2", "-999.25"],
+    "1e30": ["1e30", "1E+30", "1.0e30", "10e29", "1e29"],
+    "-9999.25": ["-9999.25", "-9999.21", "-9999.250", "-9999,25"],
+}
 
 
 STEERING_VALUES = [("WRAP", "no"), ("WRAP", "No"), ("WRAP", "n/a"), ("WRAP", "yes please"), ("WRAP", "NO"), ("NULL", "n/a"), ("NULL", "none"),
@@ -182,7 +197,11 @@ def random_case(rng, tier):
         else:
             s = "".join(rng.choice("0123456789_") for _ in range(rng.randint(2, 8)))
         out.append(s.strip())
-    return {"strings": out, "section": rng.choice(SECTION_KINDS), "mn": rng.choice(MN_KINDS)}
+    c = {"strings": out, "section": rng.choice(SECTION_KINDS), "mn": rng.choice(MN_KINDS)}
+    if rng.random() < 0.2:
+        c["null"] = rng.choice(list(NULL_EQUAL))
+        c["strings"] = out[:len(out) // 2] + NULL_EQUAL[c["null"]]
+    return c
 
 
 def run_steering(case, ctx):
@@ -223,7 +242,9 @@ def run_case(case, ctx):
             lines.append("%s.  %s : d%d" % (mn, s, i))
         used.append((mn, s))
     head = ["~Version", "VERS. 2.0 : v", "WRAP. NO : w"]
-    well = ["~Well", "STRT.M 1 : s", "STOP.M 2 : s", "STEP.M 1 : s", "NULL. -999.25 : n"]
+    well = ["~Well", "STRT.M 1 : s", "STOP.M 2 : s", "STEP.M 1 : s", "NULL. %s : n" % case.get("null", "-999.25")]
+    if case.get("null"):
+        ctx.count("files_with_values_equal_to_their_null")
     text = []
     if sec == "Version":
         text = head + lines + well
